@@ -21,6 +21,10 @@ Handshake == [ name |-> "handshake", init |-> "Propose",
               Tr("Confirm", "Refuse", "Done"),
               Tr("Confirm", "QueryReply", "Done") } ]
 
+\* node-to-client handshake: same machine, other version numbers and version data
+\* (handshake::N2CClient / N2CServer are the same generic agents over n2c::VersionData)
+HandshakeN2C == [ Handshake EXCEPT !.name = "handshake_n2c" ]
+
 ChainSync == [ name |-> "chainsync", init |-> "Idle",
   agency |-> [ Idle |-> "client", CanAwait |-> "server", MustReply |-> "server",
                Intersect |-> "server", Done |-> "nobody" ],
@@ -126,7 +130,7 @@ LeiosFetch == [ name |-> "leiosfetch", init |-> "Idle",
               Tr("AwaitingBlockTxs", "BlockTxs", "Idle") } ]
 
 \* original stack (pallas-network), property C23
-ClassicProtocols == { Handshake, ChainSync, BlockFetch, TxSubmission, KeepAlive, PeerSharing,
+ClassicProtocols == { Handshake, HandshakeN2C, ChainSync, BlockFetch, TxSubmission, KeepAlive, PeerSharing,
                       LocalState, LocalTxSubmission, TxMonitor }
 \* P2P stack (pallas-network2), property C24
 P2PProtocols == { Handshake, KeepAlive, ChainSync, BlockFetch, PeerSharing, TxSubmission,
@@ -194,7 +198,7 @@ AgentOKBad(Q, r, s, steps, commit, cond, res, after, bad) ==
 (*    agents, so messages of the other role cannot even be attempted.      *)
 Agents == { <<Q.name, r>> : Q \in ClassicProtocols, r \in Roles } \ { <<"txmonitor", "server">> }
 NoCommitMsg == { <<"keepalive", "client", "Done">>, <<"txmonitor", "client", "Done">>,
-                 <<"handshake", "server", "QueryReply">> }
+                 <<"handshake", "server", "QueryReply">>, <<"handshake_n2c", "server", "QueryReply">> }
 \* in walks the pallas server's RejectTx is replaced by a decodable one from a raw
 \* channel (its own encoding is not accepted by the pallas client decoder - a codec
 \* matter outside this property), so the server's state is not observed after it
